@@ -178,8 +178,11 @@ def check_query(ctx: Ctx, case) -> None:
         shadow = None
     for t in case["ticks"]:
         if shadow is not None:
-            shadow.timestamp_at_tick(t)
-            shadow.timestamp_at_tick_no_optimize_return(t)
+            try:
+                shadow.timestamp_at_tick(t)
+                shadow.timestamp_at_tick_no_optimize_return(t)
+            except Exception:  # noqa: BLE001  (the shadow is not under test)
+                pass
         for name, fn in (("no_optimize", lambda x: bpm.timestamp_at_tick_no_optimize_return(x)),
                          ("at_tick", lambda x: bpm.timestamp_at_tick(x)[0])):
             try:
